@@ -225,42 +225,10 @@ func TestPropCorpus(t *testing.T) {
 
 // ---- (c) projects with arbitrary reference graphs
 
-var typeForms = []string{
-	"%a", "%a | %b", "%a | %a", "{%a: %b}", "{\"k\": %a}", "{\"k\": %a // {optional: true}\n}", "[%a]", "[%a, %b]",
-	"1 // {type: \"%a\"}", "\"s\" // {type: \"%a\"}", "1 // {or: [\"%a\", \"%b\"]}", "1 // {or: [{type: \"%a\"}, \"string\"]}", "1 // {or: [{type: \"%a\", nullable: true}, {type: \"%b\"}]}",
-	"{} // {allOf: \"%a\"}", "{ // {allOf: [\"%a\", \"%b\"]}\n  \"own\": 1\n}", "{} // {additionalProperties: \"%a\"}", "{ // {additionalProperties: \"%a\"}\n  %b: 1\n}",
-	"1", "\"kk\"", "{}", "[]", "null", "{\"a\": {\"b\": [%a]}}", "1 // {enum: @e}", "1 // {enum: %a}", "%a // {nullable: true}", "%a // {type: \"%b\"}", "%a // {or: [\"%b\"]}",
-	"{\"k\": %a | %b // {optional: true}\n}", "", " ", "# only a comment", "/^k+$/",
-}
+var typeForms = gen.TypeForms
 
 func genProjectCase(t *rapid.T) Case {
-	names := []string{"@main", "@a", "@b", "@c", "@missing"}
-	nt := rapid.IntRange(1, 4).Draw(t, "ntypes")
-	mk := func(label string) string {
-		f := rapid.SampledFrom(typeForms).Draw(t, label+"form")
-		a := rapid.SampledFrom(names).Draw(t, label+"a")
-		b := rapid.SampledFrom(names).Draw(t, label+"b")
-		return strings.ReplaceAll(strings.ReplaceAll(f, "%a", a), "%b", b)
-	}
-	p := &sut.Project{Root: mk("root"), Self: rapid.IntRange(0, 2).Draw(t, "self") != 0}
-	for i := 0; i < nt; i++ {
-		name := names[1+i%3]
-		n := sut.Named{Name: name, Text: mk(name)}
-		if strings.HasPrefix(n.Text, "/") && rapid.Bool().Draw(t, name+"asregex") {
-			n.Regex = true
-		}
-		switch rapid.IntRange(0, 9).Draw(t, name+"file") {
-		case 0:
-			n.File = "@other" // registered under a name different from its file name
-		case 1:
-			n.File = "@main"
-		}
-		p.Types = append(p.Types, n)
-	}
-	if rapid.IntRange(0, 3).Draw(t, "rule") == 0 {
-		p.Rules = append(p.Rules, sut.Named{Name: "@e", Text: rapid.SampledFrom([]string{"[1, 2]", "[\"kk\"]", "[", "", "[1] /* x *"}).Draw(t, "ruletext")})
-	}
-	return Case{Entry: "project", Project: p}
+	return Case{Entry: "project", Project: gen.GraphProject(t)}
 }
 
 func hasCycle(p *sut.Project) bool {
@@ -325,7 +293,7 @@ func TestPropNumbers(t *testing.T) {
 		t.Skip("not sharded")
 	}
 	var n int64
-	for _, s := range []string{"1e18446744073709551616", "1e-18446744073709551617", "1e9223372036854775807", "1e-9223372036854775808", "1e99999999999999999999", "1E+00000000000000000000000001", "-0e-0",
+	for _, s := range []string{"1e18446744073709551616", "1e-18446744073709551617", "1e9223372036854775807", "1e-9223372036854775808", "1e-9223372036854775807", "1E-9223372036854775806", "-1.5e-9223372036854775807", "1e+9223372036854775806", "1e-4611686018427387904", "1e4611686018427387904", "1e-1000001", "1e+1000001", "12.5e-1000001", "1e99999999999999999999", "1E+00000000000000000000000001", "-0e-0",
 		strings.Repeat("9", 5000), "0." + strings.Repeat("0", 5000) + "1", "1e1000000", "1e-1000000", "1e1000001", "1e", "1e+", "-", "--1", "1.e5", "0x10", "1e5e5", "١٢٣"} {
 		c := Case{Entry: "number", Text: s}
 		ev.Guard("numbers", c)
